@@ -9,7 +9,7 @@
    every interleaving, every fault script, any length, any channel capacity. *)
 From SV Require Import Model.Common Model.Client Model.ClientAccept Spec.ClientSpec
      Proofs.ClientBase Proofs.ClientSafety Proofs.ClientHistory Proofs.ClientOrder Proofs.ClientTheorems
-     Proofs.ClientAcceptProofs Proofs.ClientLiveness Proofs.ClientCorollaries
+     Proofs.ClientAcceptProofs Proofs.ClientLiveness Proofs.ClientCorollaries Proofs.ClientRecover
      Model.AckParse Proofs.AckParseProofs.
 From Coq Require Import Permutation.
 
@@ -123,6 +123,25 @@ Theorem C02_progress_length :
   forall k L Q, length (healthy k L Q) = (5 + 6 * (length L + length Q))%nat.
 Proof. exact healthy_length. Qed.
 Print Assumptions C02_progress_length.
+
+(* 4a. Progress from ANYWHERE, PARTIAL.  With a max session age (maxDuration > 0): from every reachable state of a
+       client that was not asked to stop (inside the contract, distinct ids) there EXISTS a continuation in which it
+       keeps running and the upstream behaves (no stop / close / SIGUSR1 / new chunk, every connect, send and ping
+       succeeds, every ack read returns an id) after which every chunk ever taken from the queue - also one stuck
+       behind an unknown-id ACK - has been reported delivered exactly once, nothing is held or handed back and the
+       queue is empty.  The continuation is built by a scheduler with a lexicographic measure (main's distance to the
+       session boundary, then the acknowledger's backlog), then C02_progress_partial.
+       MISSING: that EVERY fair continuation does so (inevitability needs scheduler fairness and real time, which
+       the model does not have).  Without max session age the statement is false: C02_liveness_refuted. *)
+Theorem C02_progress_anywhere_partial :
+  forall (P : params) (tr0 : list event) (s : state),
+  (1 <= p_cap P)%nat -> p_maxage P = true ->
+  reach_by P tr0 s -> in_contract tr0 -> distinct_input tr0 -> stop_sig s = false -> in_closed s = false ->
+  exists tr s', run P s tr = Some s' /\ forallb healthy_cont tr = true /\
+                holdings s' = [] /\ inq s' = [] /\
+                Permutation (taken_of (tr0 ++ tr)) (consumed_of (tr0 ++ tr)) /\ handed_of (tr0 ++ tr) = [].
+Proof. exact recoverable_lemma. Qed.
+Print Assumptions C02_progress_anywhere_partial.
 
 (* 4b. The liveness gap (finding C02-wrong-id-ack-stuck): after an ACK carrying an unknown id the acknowledger goes
        back to waiting for the NEXT chunk without having removed the chunk it was waiting for.  Without a max session
